@@ -166,6 +166,16 @@ func registerHooks(p *Program) {
 		}
 		return iface{}
 	}
+	h["os.Remove"] = func(fr *frame, args []value) value {
+		path, ok := args[0].(string)
+		if !ok {
+			panic(abort{AbortUnsupported, "os.Remove of a symbolic path"})
+		}
+		if !mboltFn(fr, "RemovePath", path).(bool) {
+			return pathErr(fr, "remove", path)
+		}
+		return iface{}
+	}
 	h["io.Copy"] = func(fr *frame, args []value) value {
 		es := &fr.i.es
 		fileOf := func(v value) (string, bool) {
